@@ -86,7 +86,7 @@ MatApi == {"t2r", "r2t", "tr2rt", "rt2tr", "trinv", "trinv2", "trlog(R)", "trlog
            "SE3([T,T])", "SO3([R,R])", "SE3*points", "SO3*points", "SE2*points", "UnitQuaternion*points"}
 
 \* entries documented ":SymPy: supported" (C16) and the symbolic pose expressions built over them
-SymApi == {"rotx", "roty", "rotz", "trotx", "troty", "trotz", "transl", "eul2r", "eul2tr", "delta2tr", "trinv", "trinv2",
+SymApi == {"simplify", "rotx", "roty", "rotz", "trotx", "troty", "trotz", "transl", "eul2r", "eul2tr", "delta2tr", "trinv", "trinv2",
            "tr2delta", "tr2jac", "skew", "vex", "skewa", "vexa", "det", "norm", "normsq", "cross", "qpow", "conj",
            "SO3.Rx", "SO3.Ry", "SO3.Rz", "SO3.Eul", "SO3.RPY", "SE3.Rx", "SE3.Ry", "SE3.Rz", "SE3.Tx", "SE3.Ty", "SE3.Tz",
            "SE3.Eul", "SE3.RPY", "SE3.Delta", "SE3(x,y,z)", "SE3.t", "SE3.R", "SE3.inv", "SE3.Ad", "SE3.jacob",
@@ -94,6 +94,12 @@ SymApi == {"rotx", "roty", "rotz", "trotx", "troty", "trotz", "transl", "eul2r",
 SymExprs == {"SE3.Rx*SE3.Tx", "SE3.Rz*SE3.Ry*SE3.Rx", "(SE3.Rx*SE3.Ty).inv", "SE3.Rx*SE3.Tx*point", "SO3.Rx*SO3.Ry",
              "SO3.Rz.inv", "SO3.Rx*point", "SE3.Rx*SE3.Rx.inv", "SE3.Rz**2", "SE3.Tx/SE3.Rz"}
 SymModes == {"all-symbolic", "mixed"}
+\* entries whose argument (or receiver) is a matrix: the symbolic matrix is composed in several ways, because a
+\* one-axis rotation has so many structural zeros that most entries of a formula are never exercised
+SymMatApi == {"trinv", "tr2delta", "tr2delta(T0,T1)", "tr2jac", "tr2jac(samebody)", "vex(R-I)", "vex(R-R')", "vexa(T-I)",
+              "det", "det(4x4)", "SE3.inv", "SE3.Ad", "SE3.jacob", "SE3.t", "SO3.R", "SO3.inv", "SE3*SE3", "SE3*point",
+              "SO3*point", "simplify"}
+SymMatArgs == {"one-axis", "two-axis", "euler", "number-times-symbol"}
 
 FormsOf(layer) == IF layer = "base" THEN {"list", "tuple", "array", "row", "column"}
                   ELSE {"list", "tuple", "array"}
@@ -163,6 +169,11 @@ SymCall(n, mode) ==
   /\ call' = [op |-> "sym", name |-> n, mode |-> mode]
   /\ expect' = "symbolic-equals-numeric"
 
+SymMatCall(n, arg, mode) ==
+  /\ call.op = "none"
+  /\ call' = [op |-> "symmat", name |-> n, arg |-> arg, mode |-> mode]
+  /\ expect' = "symbolic-equals-numeric"
+
 ScalarCall(n) ==
   /\ call.op = "none"
   /\ call' = [op |-> "scalars", name |-> n]
@@ -178,6 +189,7 @@ Next ==
   \/ \E n \in ScalarForms : ScalarCall(n)
   \/ \E n \in MatApi : \E k \in MatKinds : MatCall(n, k)
   \/ \E n \in SymApi \cup SymExprs : \E mode \in SymModes : SymCall(n, mode)
+  \/ \E n \in SymMatApi : \E a \in SymMatArgs : \E mode \in SymModes : SymMatCall(n, a, mode)
 
 Spec == Init /\ [][Next]_vars
 
